@@ -344,6 +344,9 @@ def run_engine(engine, circuit, m, n, masks, reuse=False, order=None, mask_with_
         out["evolve"][tuple(s)] = {tuple(k): complex(v) for k, v in ev}
         # the same questions again, after every kind of query has been answered once for this input: an answer
         # must not depend on what was asked before (a bulk query or evolve() that rescales cached data in place)
+        # (four inputs per case: the two most bunched ones, the middle and the last of the enumeration)
+        if not reuse and states.index(list(s)) not in (0, 1, len(states) // 2, len(states) - 1):
+            continue
         out["allprob_again"][tuple(s)] = [float(x) for x in b.all_prob()]
         out["evolve_again"][tuple(s)] = {tuple(k): complex(v) for k, v in b.evolve()}
         if not masks:
@@ -815,9 +818,9 @@ def run(chk: core.Check):
     # --- degenerate values: every engine gets the SAME circuit (two-mode components only, so that MPS takes it) on
     # even rounds; on odd rounds the four engines that accept wider blocks get monomial 3-mode blocks as well
     deg_sizes = chk.pick([(2, 2), (3, 2), (3, 3), (4, 2), (2, 3), (3, 1), (3, 2), (4, 2)],
-                         [(2, 2), (3, 2), (3, 3), (4, 2), (2, 4), (3, 1), (4, 3), (5, 2), (3, 4), (4, 2), (3, 3), (5, 3)])
+                         [(2, 2), (3, 2), (3, 3), (4, 2), (2, 4), (3, 1), (4, 3), (5, 2)])
     deg_offset = rng.randrange(len(DEG_CYCLE))
-    for i in range(chk.pick(8, 24)):
+    for i in range(chk.pick(8, 16)):
         m, n = deg_sizes[i % len(deg_sizes)]
         shape = ("between", "between", "mixed", "all")[i % 4]
         forced = {0: "bs-theta-zero", 1: "u2-diagonal"}.get(i % 4)
